@@ -45,6 +45,9 @@ type c09Opts struct {
 	// emptyResumes: every reconnect is answered 200 with an empty body (a server that keeps
 	// closing the stream without progress): the pending call must fail, not hang
 	emptyResumes bool
+	// notes: number of notifications before the response (default 2); with many events the first body
+	// is cut at event boundaries only (ids reach two digits: cursors are ids, not numbers or strings to order)
+	notes int
 }
 
 type c09Body struct {
@@ -147,6 +150,9 @@ func (s *c09Script) serve(from int, cutMenu string) *http.Response {
 		for i := 0; i <= len(full); i++ {
 			offsets = append(offsets, i)
 		}
+	case "boundaries":
+		offsets = append(offsets, 0)
+		offsets = append(offsets, ends...)
 	case "classes":
 		// representative cut points of the first remaining event: start, inside "id:", after the id line, inside data, before the blank line, boundary; and the very end
 		first := s.events[from].text()
@@ -227,6 +233,9 @@ func (s *c09Script) roundTrip(req *http.Request, n int) (*http.Response, error) 
 			return s.resp(200, "application/json", io.NopCloser(strings.NewReader(`{"jsonrpc":"2.0","id":`+s.callID+`,"result":{"content":[{"type":"text","text":"done"}]}}`))), nil
 		}
 		s.started = true
+		if s.o.notes > 2 {
+			return s.serve(0, "boundaries"), nil
+		}
 		return s.serve(0, "every"), nil
 	case req.Method == "POST":
 		return s.resp(202, "", nil), nil
@@ -339,9 +348,15 @@ func c09Run(o c09Opts, ch *verifx.Chooser) (obs, bad, sig string, steps int) {
 		sc.events = append(sc.events, c09Event{id: id(k)})
 		k++
 	}
-	sc.events = append(sc.events, c09Event{id: id(k), data: note(1)}, c09Event{id: id(k + 1), data: note(2)})
+	nNotes := 2
 	if o.standalone {
-		sc.events = append(sc.events, c09Event{id: id(k + 2), data: note(3)})
+		nNotes = 3
+	}
+	if o.notes > 0 {
+		nNotes = o.notes
+	}
+	for i := 1; i <= nNotes; i++ {
+		sc.events = append(sc.events, c09Event{id: id(k + i - 1), data: note(i)})
 	}
 	hx := &hxTransport{Intercept: sc.roundTrip}
 	var delivered []int
@@ -353,7 +368,7 @@ func c09Run(o c09Opts, ch *verifx.Chooser) (obs, bad, sig string, steps int) {
 	if !o.standalone {
 		// the call's id is 2 (initialize is 1): the response event closes the logical stream
 		sc.callID = "2"
-		sc.events = append(sc.events, c09Event{id: id(k + 2), data: `{"jsonrpc":"2.0","id":2,"result":{"content":[{"type":"text","text":"done"}]}}`})
+		sc.events = append(sc.events, c09Event{id: id(k + nNotes), data: `{"jsonrpc":"2.0","id":2,"result":{"content":[{"type":"text","text":"done"}]}}`})
 	} else {
 		sc.callID = "2"
 	}
@@ -376,10 +391,6 @@ func c09Run(o c09Opts, ch *verifx.Chooser) (obs, bad, sig string, steps int) {
 		synctest.Wait()
 	}
 	steps = len(hx.exchanges())
-	nNotes := 2
-	if o.standalone {
-		nNotes = 3
-	}
 	// exactly-once, in-order delivery
 	for i, d := range delivered {
 		if d != i+1 {
@@ -480,6 +491,7 @@ func TestVerifC09(t *testing.T) {
 		mk("post-stream/ids/no-retries", c09Opts{ids: true, maxRetries: -1}),
 		mk("post-stream/ids/retries=2/empty-resumes", c09Opts{ids: true, maxRetries: 2, emptyResumes: true}),
 		mk("standalone-stream/ids/retries=2", c09Opts{standalone: true, ids: true, maxRetries: 2}),
+		mk("post-stream/ids/12-events/retries=2", c09Opts{ids: true, maxRetries: 2, notes: 12}),
 	}
 	if !env.Quick() {
 		scs = append(scs,
